@@ -2521,11 +2521,16 @@ def resolve_constants(items, constants):
 def resolve_labels(items, labels):
     position = 0
     new_items = []
+    defined = set()
     for item in items:
         if not isinstance(item, Label):
             position += item.size()
             new_items.append(item)
             continue
+
+        if item.name in defined:
+            raise AssemblerError('duplicate label: {}'.format(item.name), item.line)
+        defined.add(item.name)
 
         labels[item.name] = position
 
